@@ -1,6 +1,7 @@
 package ledger
 
 import (
+	"bytes"
 	"fmt"
 	"math/big"
 	"testing"
@@ -37,6 +38,7 @@ type c01Case struct {
 	Family string   `json:"family"` // balanced, unbalanced, mutated, coinbase
 	Ins    []c01In  `json:"ins"`
 	Outs   []c01Out `json:"outs"`
+	Slow   int      `json:"slow,omitempty"` // spend programs are OP_1 followed by this many OP_SHA3 (the value graph still decides; validation just takes longer)
 }
 
 var c01Amounts = []uint64{0, 1, 2, 1<<31 - 1, 1 << 31, 1<<31 + 1, 1 << 32, 1 << 62, 1<<63 - 1, 1 << 63, 1<<64 - 1}
@@ -226,6 +228,10 @@ func c01Gen(t *rapid.T) c01Case {
 
 func c01Build(c c01Case) (*types.Tx, error) {
 	d := &types.TxData{Version: 1}
+	spendProg := []byte{0x51}
+	if c.Slow > 0 && c.Slow <= 5000 {
+		spendProg = append(spendProg, bytes.Repeat([]byte{0xaa}, c.Slow)...)
+	}
 	for i, in := range c.Ins {
 		var src bc.Hash
 		src.V0, src.V1 = uint64(i+1), 0xabcdef
@@ -233,7 +239,7 @@ func c01Build(c c01Case) (*types.Tx, error) {
 		case "coinbase":
 			d.Inputs = append(d.Inputs, types.NewCoinbaseInput([]byte{0x00, '1'}))
 		case "spend":
-			d.Inputs = append(d.Inputs, types.NewSpendInput(nil, src, c01Asset(in.Asset), in.Amount, uint64(i), []byte{0x51}, nil))
+			d.Inputs = append(d.Inputs, types.NewSpendInput(nil, src, c01Asset(in.Asset), in.Amount, uint64(i), spendProg, nil))
 		case "veto":
 			d.Inputs = append(d.Inputs, types.NewVetoInput(nil, src, c01Asset(0), in.Amount, uint64(i), []byte{0x51}, c01VoteKey, nil))
 		case "issue":
@@ -302,8 +308,13 @@ func c01Exec(c c01Case, x *pbt.Ctx) error {
 		return nil
 	}
 	x.Class("validated:" + c.Family)
+	nt, err := c01Judge(c, tx, gas)
+	x.NonTrivial = nt
+	return err
+}
 
-	// independent sums over the transaction data
+// c01Judge judges a transaction the validator passed, with independent sums over the transaction data.
+func c01Judge(c c01Case, tx *types.Tx, gas *validation.GasState) (nonTrivial bool, err error) {
 	in := map[bc.AssetID]*big.Int{}
 	out := map[bc.AssetID]*big.Int{}
 	add := func(m map[bc.AssetID]*big.Int, a bc.AssetID, v uint64) {
@@ -337,7 +348,7 @@ func c01Exec(c c01Case, x *pbt.Ctx) error {
 	for a := range in {
 		assets[a] = true
 	}
-	x.NonTrivial = len(assets) >= 2 || big62 || c.Family == "mutated"
+	nonTrivial = len(assets) >= 2 || big62 || c.Family == "mutated"
 	zero := new(big.Int)
 	get := func(m map[bc.AssetID]*big.Int, a bc.AssetID) *big.Int {
 		if m[a] == nil {
@@ -348,13 +359,13 @@ func c01Exec(c c01Case, x *pbt.Ctx) error {
 	if coinbase {
 		for _, o := range tx.Outputs {
 			if *o.AssetId != *consensus.BTMAssetID {
-				return fmt.Errorf("validated coinbase transaction has a non-BTM output (asset %x, amount %d)", o.AssetId.Bytes(), o.Amount)
+				return nonTrivial, fmt.Errorf("validated coinbase transaction has a non-BTM output (asset %x, amount %d)", o.AssetId.Bytes(), o.Amount)
 			}
 		}
 		if gas.BTMValue != 0 || tx.Fee() != 0 {
-			return fmt.Errorf("validated coinbase transaction: validator reports BTM value %d, Fee() = %d; both must be 0", gas.BTMValue, tx.Fee())
+			return nonTrivial, fmt.Errorf("validated coinbase transaction: validator reports BTM value %d, Fee() = %d; both must be 0", gas.BTMValue, tx.Fee())
 		}
-		return nil
+		return nonTrivial, nil
 	}
 	for a := range assets {
 		i, o := get(in, a), get(out, a)
@@ -362,21 +373,21 @@ func c01Exec(c c01Case, x *pbt.Ctx) error {
 			continue
 		}
 		if i.Cmp(o) != 0 {
-			return fmt.Errorf("validated transaction does not conserve asset %x: inputs total %s, outputs total %s\ncase: %+v", a.Bytes(), i, o, c)
+			return nonTrivial, fmt.Errorf("validated transaction does not conserve asset %x: inputs total %s, outputs total %s\ncase: %+v", a.Bytes(), i, o, c)
 		}
 	}
 	bi, bo := get(in, *consensus.BTMAssetID), get(out, *consensus.BTMAssetID)
 	if bi.Cmp(bo) < 0 {
-		return fmt.Errorf("validated transaction creates BTM: inputs %s < outputs %s\ncase: %+v", bi, bo, c)
+		return nonTrivial, fmt.Errorf("validated transaction creates BTM: inputs %s < outputs %s\ncase: %+v", bi, bo, c)
 	}
 	diff := new(big.Int).Sub(bi, bo)
 	if !diff.IsUint64() || diff.Uint64() != gas.BTMValue {
-		return fmt.Errorf("validator reports a fee of %d, BTM inputs - outputs = %s\ncase: %+v", gas.BTMValue, diff, c)
+		return nonTrivial, fmt.Errorf("validator reports a fee of %d, BTM inputs - outputs = %s\ncase: %+v", gas.BTMValue, diff, c)
 	}
 	if tx.Fee() != gas.BTMValue {
-		return fmt.Errorf("TxData.Fee() = %d, validator reports %d (inputs - outputs = %s)\ncase: %+v", tx.Fee(), gas.BTMValue, diff, c)
+		return nonTrivial, fmt.Errorf("TxData.Fee() = %d, validator reports %d (inputs - outputs = %s)\ncase: %+v", tx.Fee(), gas.BTMValue, diff, c)
 	}
-	return nil
+	return nonTrivial, nil
 }
 
 func TestC01(t *testing.T) {
